@@ -266,7 +266,38 @@ def yadrenko(ctx, temporal):
           functions=["covmodel/base.py:CovModel.isometrize", "covmodel/base.py:CovModel.anisometrize",
                      "covmodel/tools.py:set_model_angles"], timeout=90)
 def temporal_axis(ctx, latlon, dim):
+    _temporal_body(ctx, latlon, dim, "ctor")
+
+
+@contract(P, "CovModel.angles.setter,anis.setter[temporal]/time-axis-only-scaled",
+          params=[{"dim": 3, "how": h} for h in ("angles", "anis+angles", "set_arg_bounds-then-angles")] +
+                 [{"dim": 4, "how": "angles"}],
+          functions=["covmodel/base.py:CovModel.angles", "covmodel/base.py:CovModel.anis",
+                     "covmodel/base.py:CovModel.isometrize", "covmodel/tools.py:set_model_angles"], timeout=90)
+def temporal_axis_setters(ctx, dim, how):
+    """the statement holds for every way the orientation of a spatio-temporal model can be given: angles (a full
+    list, incl. entries for the planes that contain the time axis) assigned AFTER construction"""
+    _temporal_body(ctx, False, dim, how)
+
+
+def _temporal_body(ctx, latlon, dim, how):
     mod = _sym_model(ctx, latlon, True, dim)
+    if how != "ctor":
+        n = dim * (dim - 1) // 2
+        new = ctx.reals("newang", n, angle=True)
+        with warnings.catch_warnings():
+            warnings.simplefilter("ignore")
+            if how == "anis+angles":
+                na = ctx.reals("newanis", dim - 1, pos=True)
+                for r in na:
+                    ctx.require(ctx.gt(r, 0))
+                mod.anis = na
+            if how.startswith("set_arg_bounds"):
+                mod.set_arg_bounds(var=[0.0, 50.0])
+            mod.angles = new
+        planes = geo.rotation_planes(dim)
+        ctx.ensure("assigned-spatial-angles-kept;space-time-angles-zero",
+                   ctx.And(*[ctx.eq(mod.angles[k], 0 if dim - 1 in pl else new[k]) for k, pl in enumerate(planes)]))
     fd = mod.field_dim
     pos = ctx.reals("p", fd)
     if latlon:
